@@ -9,6 +9,8 @@ Writes /verif/seeded/<id>/{patch.diff, demo/, meta.json} when confirmed.
 """
 import json, os, shutil, subprocess, sys, glob, re
 
+VERIF = os.path.dirname(os.path.dirname(os.path.dirname(os.path.abspath(__file__))))
+
 ENV = dict(os.environ, GOFLAGS="-mod=mod", GOPROXY="off", GOSUMDB="off", GOTOOLCHAIN="local")
 MODS = ["api/v3", "api/v3alpha", "util/maven", "util/pypi", "util/resolve", "util/semver"]
 
@@ -77,7 +79,7 @@ def install_demo(sid, tree):
     gm = os.path.join(work, "go.mod")
     if os.path.exists(gm):
         s = open(gm).read()
-        s = re.sub(r"=> */tmp/seed-[a-z0-9]+", "=> " + tree, s)
+        s = re.sub(r"=> */tmp/seed3?-[a-z0-9]+", "=> " + tree, s)
         open(gm, "w").write(s)
         for sumsrc in ("util/resolve/go.sum",):
             if not os.path.exists(os.path.join(work, "go.sum")):
@@ -123,19 +125,19 @@ def main():
                 os.remove(os.path.join(root, os.path.basename(t)))
     res["checks"] = {}
     for c in checks:
-        rc, out = sh("./check %s" % c, cwd="/verif", env=dict(os.environ, VERIF_REPO=mut), timeout=7200)
+        rc, out = sh("./check %s" % c, cwd=VERIF, env=dict(os.environ, VERIF_REPO=mut), timeout=7200)
         v = [l for l in out.splitlines() if l.startswith("VIOLATION")]
         res["checks"][c] = {"exit": rc, "violation_lines": v, "tail": out.splitlines()[-1:] }
         if v:
             rp = v[0].split("replay=")[1].split()[0]
             try:
-                res["checks"][c]["replay_excerpt"] = open(os.path.join("/verif", rp)).read()[:1500]
+                res["checks"][c]["replay_excerpt"] = open(os.path.join(VERIF, rp)).read()[:1500]
             except Exception:
                 pass
     confirmed = res["demo_passes_without_change"] and res["suite_passes_with_change"] and res["demo_fails_with_change"] and res["patch_applies"]
     res["confirmed"] = confirmed
     if confirmed:
-        dst = "/verif/seeded/%s" % sid
+        dst = os.path.join(VERIF, "seeded", sid)
         shutil.rmtree(dst, ignore_errors=True)
         os.makedirs(dst)
         shutil.copy("/tmp/seedout/%s/patch.diff" % sid, dst)
